@@ -6,6 +6,7 @@ var pinnedHashes = map[string]string{
 	"GOTYPES_RESOLVEIDENT": "37813323b9abdc16",
 	"GOAST_RESOLVEIDENT":   "4be53d07a97ef4bd",
 	"GOAST_IMPORTS":        "a41afde1826879ac",
+	"GOAST_IMPORTS_FRAME":  "2df0f301f9f4a08d",
 	"DEC_RESOLVEPATH":      "362e2839feeaba9e",
 	"DEC_STRIPVENDOR":      "d4948ac7c1f33463",
 }
